@@ -27,10 +27,23 @@ Correspondence / exploration streams (each registered as an obligation):
     misrouted rule is visible).  Two references, both computed per entry independently of the
     batch and of history: the Lean `fit` model over the SynReactor table, and a fresh one-entry,
     one-process, cache-less `BatchReactor` (the property's own right-hand side).
+ b-err  batches holding an entry that is no substrate (unparsable SMILES, non-string, dict without the key / without a
+    `host_key`) and rule lists holding a non-rule: `fit` must raise (the member alone is an error - judged by type, key
+    and RDKit, not by synkit) with an error kind one of the ill-formed members raises alone, for 1 and 2 entry workers;
+    a good fit on the same reactor after a failed one == the SynReactor table.
  c  `BatchCluster.fit` for every batch size 1..N vs one shot, partitions compared as partitions,
-    and against the Lean model fed with isomorphism classes from the proven `isoDecide` engine.
+    and against the Lean model fed with isomorphism classes from the proven `isoDecide` engine
+    (also `templates=None`, and batch_size 0 / -1 -> ValueError).
+ c' the same with a NON-empty initial template library (the single-batch `cluster` branch of `fit`; theorem
+    `batched_cluster_eq_oneshot_templates`): labels of the initial library are compared exactly, new classes as a
+    partition; returned library: initial part kept, labels as the model's.
  d  `validate_smiles` / `dicts_balance_check` with n_jobs 1 vs 4.
+ d' the same through every documented input form (DataFrame / list; single string / list of strings and dicts, other
+    column names), per-pair options (check_method, ignore_aromaticity, ignore_tautomers), unparsable rows, empty and
+    ill-typed inputs: outcome (value or error kind) equal for every worker count and equal to the serial evaluation.
  e  `SynCRN.build(parallel=True)` vs `parallel=False`.
+ e' the same over strategy / use_frontier / de-duplication flags / keep_aam / component and task caps / a three-component
+    rule / unusable and repeated seeds, max_workers 1..4 and default, `SynCRN(...).build` and `build_syncrn_from_smarts`.
 
 Process start-up, pickling and scheduling of worker processes are runtime behaviour the model
 cannot exhibit: for those C14 is *partial* and streams b, b' (with workers), d, e are exploration of
@@ -771,6 +784,191 @@ def run_fit(ctx, world, cases, tag):
             return
 
 
+# ---------------------------------------------------------------------- stream b-err: entries / rules that are no substrate / no rule
+BAD_SMILES = ["C(C", "xyz", "CC.", "[Xx]", "C1CC", "CC>>CC", "c1ccc1("]
+NON_STR = [5, None, 1.5, ["CCO"], True]
+
+
+def entry_value(world, e, host_key):
+    """the Python object handed to BatchReactor for one entry spec (JSON-able spec -> object)"""
+    k = e["kind"]
+    if k == "ok":
+        return world.subs[e["s"]]
+    if k == "ok_dict":
+        return {host_key: world.subs[e["s"]], "n": 0}
+    if k == "bad_smiles":
+        return e["text"]
+    if k == "bad_smiles_dict":
+        return {host_key: e["text"]}
+    if k == "non_str":
+        return e["value"]
+    if k == "dict_missing_key":
+        return {"not_the_key": world.subs[e["s"]]}
+    if k == "dict_non_str":
+        return {host_key: e["value"]}
+    raise AssertionError(k)
+
+
+def entry_is_substrate(world, e, host_key):
+    """Independent of synkit: does the entry denote a molecule at all?  (type, key, RDKit parse)"""
+    from rdkit import Chem
+    k = e["kind"]
+    if k == "ok":
+        return True
+    if k == "ok_dict":
+        return host_key is not None
+    if k in ("bad_smiles", "bad_smiles_dict"):
+        return (k == "bad_smiles" or host_key is not None) and Chem.MolFromSmiles(e["text"]) is not None
+    return False
+
+
+def gen_fit_err_case(rnd, world, n_jobs=1):
+    sem = SEM_DEFAULT
+    inv = rnd.random() < 0.3
+    if not world.hits(inv, sem):
+        inv = not inv
+    rl = gen_rule_list(rnd, world, rnd.randint(1, 3), inv, sem)
+    H = world.hits(inv, sem)
+    host_key = rnd.choice([None, "smi", "smi"])
+    n = rnd.randint(1, 4)
+    entries = []
+    for _ in range(n):
+        s = rnd.choice(H[rnd.choice(rl)]) if rnd.random() < 0.7 else rnd.randrange(len(world.subs))
+        entries.append({"kind": "ok_dict" if (host_key and rnd.random() < 0.5) else "ok", "s": s})
+    what = rnd.choices(["entry", "rule", "rule_then_good"], weights=[6, 2, 2])[0]
+    case = {"stream": "fit_err", "host_key": host_key, "entries": entries, "rules": rl, "inv": inv, "bad_rule": None,
+            "then_good": False, "n_jobs": n_jobs, "cache_on": rnd.random() < 0.7, "cache_max": rnd.choice([1, 2, BIG]),
+            "dedupe": rnd.random() < 0.5, "rule_opts": rnd.choice([{}, {}, {"parallel_rules": True, "rule_n_jobs": 1}])}
+    if what == "entry":
+        for _ in range(1 if rnd.random() < 0.7 else 2):
+            kind = rnd.choice(["bad_smiles", "bad_smiles", "non_str", "dict_missing_key", "dict_non_str", "ok_dict", "bad_smiles_dict"])
+            if host_key is None and kind in ("dict_missing_key", "dict_non_str", "bad_smiles_dict"):
+                kind = "ok_dict"                                     # a dict entry without a host_key: no substrate either
+            e = {"kind": kind}
+            if kind in ("bad_smiles", "bad_smiles_dict"):
+                e["text"] = rnd.choice(BAD_SMILES)
+            elif kind in ("non_str", "dict_non_str"):
+                e["value"] = rnd.choice(NON_STR)
+            else:
+                e["s"] = rnd.randrange(len(world.subs))
+            pos = rnd.randint(0, len(entries))
+            if len(entries) >= 2 and rnd.random() < 0.4:
+                entries[min(pos, len(entries) - 1)] = e               # replaces a good entry
+            else:
+                entries.insert(pos, e)                                # first / middle / last
+    else:
+        case["bad_rule"] = {"pos": rnd.randint(0, len(rl)), "value": rnd.choice([5, None, 2.5, ["x"], "C(C>>CC", "CC", ""])}
+        case["then_good"] = what == "rule_then_good"
+    return case
+
+
+def fit_err_eval(world, case):
+    """-> dict: outcome of the batch, outcome of every entry alone (one-entry, one-process, cache-less reactor), and of
+    the good fit that follows a failed one on the same reactor"""
+    from synkit.Synthesis.Reactor.batch_reactor import BatchReactor
+    hk = case["host_key"]
+    data = [entry_value(world, e, hk) for e in case["entries"]]
+    rules = [world.rules_rsmi[t] for t in case["rules"]]
+    good = list(rules)
+    if case["bad_rule"] is not None:
+        rules.insert(case["bad_rule"]["pos"], case["bad_rule"]["value"])
+    key = "syn_bw" if case["inv"] else "syn_fw"
+
+    def shape(out):
+        return [{"out": list(o.get(key, [])), "count": o.get("count")} for o in out]
+    res = {}
+    br = BatchReactor(list(data), hk, cache_enabled=case["cache_on"], cache_maxsize=case["cache_max"], dedupe=case["dedupe"],
+                      entry_n_jobs=case["n_jobs"], enable_logging=False, **case.get("rule_opts", {}))
+    with quiet_stderr():
+        res["batch"] = outcome(lambda: shape(br.fit(list(rules), invert=case["inv"])))
+        if case["then_good"]:
+            res["good_after_error"] = outcome(lambda: shape(br.fit(list(good), invert=case["inv"])))
+    # the members alone: every ill-formed entry (and, for an ill-formed rule list, the first entry); the well-formed entries of
+    # the other streams have their own references, here `None` = not evaluated
+    valid = [entry_is_substrate(world, e, hk) for e in case["entries"]]
+    res["alone"] = []
+    for j, x in enumerate(data):
+        if valid[j] and not (case["bad_rule"] is not None and j == 0):
+            res["alone"].append(None)
+            continue
+        one = BatchReactor([x], hk, cache_enabled=False, dedupe=case["dedupe"], enable_logging=False)
+        res["alone"].append(outcome(lambda: shape(one.fit(list(rules), invert=case["inv"]))))
+    return res
+
+
+def fit_err_check(world, case, res):
+    """-> None | text"""
+    hk = case["host_key"]
+    valid = [entry_is_substrate(world, e, hk) for e in case["entries"]]
+    must_fail = case["bad_rule"] is not None or not all(valid)
+    b = res["batch"]
+    if must_fail:
+        if "ok" in b:
+            why = "a rule of the list is no rule" if case["bad_rule"] is not None else \
+                f"entry {valid.index(False)} is no substrate (applying the rules to it alone is an error)"
+            return f"fit returned results although {why}"
+        alone_err = [a["error"] for a in res["alone"] if a is not None and "error" in a]
+        if not alone_err:
+            return f"the batch raised {b['error']} although its ill-formed members alone (same rules) return a result"
+        if b["error"] not in alone_err:
+            return f"the batch raised {b['error']}; the ill-formed members alone raise {sorted(set(alone_err))}"
+    elif "error" in b:
+        return f"the batch raised {b['error']} although every entry is a substrate and every rule a rule"
+    if case["then_good"]:
+        g = res.get("good_after_error", {})
+        if "ok" not in g:
+            return f"the fit with the good rules after the failed fit raised {g.get('error')}"
+        f = {"rules": case["rules"], "inv": case["inv"]}
+        pseudo = {"dedupe": case["dedupe"]}
+        if len(g["ok"]) != len(case["entries"]):
+            return "the fit after the failed fit returned a different number of entries"
+        for ei, (e, o) in enumerate(zip(case["entries"], g["ok"])):
+            flat = [c for t in f["rules"] for c in world.cell(e["s"], t, f["inv"])]
+            if pseudo["dedupe"]:
+                flat = list(dict.fromkeys(flat))
+            if o["count"] != len(o["out"]) or same_results(o["out"], [world.strings[c] for c in flat]) is None:
+                return f"after a failed fit, entry {ei} of the next fit differs from the rules applied to that substrate alone (SynReactor)"
+    return None
+
+
+def run_fit_errors(ctx, world, cases, tag):
+    for case in cases:
+        res = fit_err_eval(world, case)
+        bad_kinds = sorted({e["kind"] for e in case["entries"] if not entry_is_substrate(world, e, case["host_key"])})
+        ctx.count(f"b-err:n_jobs={case['n_jobs']}")
+        ctx.count("b-err:what=" + ("bad_rule_then_good_fit" if case["then_good"] else "bad_rule" if case["bad_rule"] is not None
+                                   else "bad_entry" if bad_kinds else "all_well_formed"))
+        for k in bad_kinds:
+            ctx.count(f"b-err:entry_kind={k}" + (",no_host_key" if case["host_key"] is None and "dict" in k else ""))
+        if case["bad_rule"] is not None:
+            ctx.count(f"b-err:bad_rule_type={type(case['bad_rule']['value']).__name__}")
+        ctx.count("b-err:batch_outcome=" + ("value" if "ok" in res["batch"] else res["batch"]["error"]))
+        pos = [i for i, e in enumerate(case["entries"]) if not entry_is_substrate(world, e, case["host_key"])]
+        if pos:
+            ctx.count("b-err:first_bad_entry_" + ("first" if pos[0] == 0 else "last" if pos[0] == len(case["entries"]) - 1 else "middle"))
+        ctx.case(["fit_err", case], len(case["entries"]) >= 2 or case["bad_rule"] is not None,
+                 sample={**case, "stream": "b-err:" + tag, "batch_outcome": res["batch"] if "error" in res["batch"] else "value"}
+                 if want_sample(ctx, "b-err:", 1) else None)
+        d = fit_err_check(world, case, res)
+        if d is None:
+            continue
+        small = case
+        if case["bad_rule"] is None and len(case["entries"]) > 1:          # minimise: drop entries while it still fails
+            cur = list(case["entries"])
+            for i in range(len(cur) - 1, -1, -1):
+                cand = {**case, "entries": cur[:i] + cur[i + 1:]}
+                if cand["entries"] and fit_err_check(world, cand, fit_err_eval(world, cand)) is not None:
+                    cur = cand["entries"]
+            small = {**case, "entries": cur}
+        r2 = fit_err_eval(world, small)
+        ctx.violation("BatchReactor.fit on a batch / rule list with an ill-formed member does not behave as on the members alone",
+                      {**small, "data": [repr(entry_value(world, e, small["host_key"])) for e in small["entries"]]},
+                      {"what": fit_err_check(world, small, r2) or d, "batch": r2["batch"], "alone": r2["alone"],
+                       "good_after_error": r2.get("good_after_error"), "stream": tag})
+        if nviol(ctx) >= 4:
+            return
+
+
 # ---------------------------------------------------------------------- stream b': the option space of BatchReactor
 def gen_rule_list(rnd, world, k, inv, sem, within=None):
     """k templates that give products (direction, options) - on some corpus substrate, or on one of `within`;
@@ -933,45 +1131,64 @@ def partition(labels):
     return sorted(groups.values())
 
 
-def cluster_impl(cw, items, attr_mode, cfg, k):
+def cluster_attr(cw, i, attr_mode):
+    return cw.sig[i] if attr_mode == "sig" else str(cw.graphs[i].number_of_nodes())
+
+
+def cluster_impl(cw, items, attr_mode, cfg, k, templates=None, none_templates=False, full=False):
+    """`templates`: initial library as [(corpus index, class label), ...] (fresh dicts for every call: `fit`
+    appends to the list it is given and writes into the entries).  `none_templates`: pass `templates=None`
+    (documented as "no templates") instead of [].  full=True -> (labels, [[corpus index, label], ...] returned library)."""
     from synkit.Graph.Matcher.batch_cluster import BatchCluster
     data = []
     for i in items:
         d = {"g": cw.graphs[i], "idx": i}
-        if attr_mode == "sig":
-            d["sig"] = cw.sig[i]
-        elif attr_mode == "size":
-            d["sig"] = str(cw.graphs[i].number_of_nodes())
+        if attr_mode != "none":
+            d["sig"] = cluster_attr(cw, i, attr_mode)
         data.append(d)
+    tl = None if none_templates else []
+    for i, lab in (templates or []):
+        d = {"g": cw.graphs[i], "idx": i, "class": lab}
+        if attr_mode != "none":
+            d["sig"] = cluster_attr(cw, i, attr_mode)
+        tl.append(d)
     bc = BatchCluster() if cfg == "default" else BatchCluster(node_label_names=["element"], node_label_default=["*"])
     try:
-        out, templates = bc.fit(data, [], rule_key="g", attribute_key=None if attr_mode == "none" else "sig", batch_size=k)
+        out, tout = bc.fit(data, tl, rule_key="g", attribute_key=None if attr_mode == "none" else "sig", batch_size=k)
     except ValueError:
         return "ValueError"
     except IndexError:
         return "IndexError"
     if [d["idx"] for d in out] != items:
         return "reordered"
-    return [d.get("class") for d in out]
+    labels = [d.get("class") for d in out]
+    if full:
+        return labels, [[d.get("idx"), d.get("class")] for d in tout]
+    return labels
 
 
-def cluster_model_req(cw, items, attr_mode, cfg, k, repaired):
+def cluster_row(cw, i, attr_mode, cfg, repaired, amap):
+    a = 0 if attr_mode == "none" else cluster_attr(cw, i, attr_mode)
+    a = amap.setdefault(a, len(amap))
+    c = cw.cls_default[i] if cfg == "default" else cw.cls_elem[i]
+    c1 = c if repaired else cw.cls_default[i]
+    return [a, c, c1]
+
+
+def cluster_model_req(cw, items, attr_mode, cfg, k, repaired, templates=None):
     amap = {}
-    rows = []
-    for i in items:
-        a = 0 if attr_mode == "none" else (cw.sig[i] if attr_mode == "sig" else str(cw.graphs[i].number_of_nodes()))
-        a = amap.setdefault(a, len(amap))
-        c = cw.cls_default[i] if cfg == "default" else cw.cls_elem[i]
-        c1 = c if repaired else cw.cls_default[i]
-        rows.append([a, c, c1])
-    return {"cmd": "batchcluster.fit", "items": rows, "batch_size": k}
+    rows = [cluster_row(cw, i, attr_mode, cfg, repaired, amap) for i in items]
+    req = {"cmd": "batchcluster.fit", "items": rows, "batch_size": k}
+    if templates:
+        req["templates"] = [cluster_row(cw, i, attr_mode, cfg, repaired, amap) + [lab] for i, lab in templates]
+    return req
 
 
 def run_cluster(ctx, cw, cases, tag):
     """cases: (items, attr_mode, cfg)"""
     for items, attr_mode, cfg in cases:
         n = len(items)
-        ks = [None] + list(range(1, n + 2))
+        ks = [None] + list(range(1, n + 2)) + [0, -1]          # batch_size < 1: ValueError by `batch_dicts`, on every input
         impl = {k: cluster_impl(cw, items, attr_mode, cfg, k) for k in ks}
         reqs = [cluster_model_req(cw, items, attr_mode, cfg, k, True) for k in ks] + \
                [cluster_model_req(cw, items, attr_mode, cfg, k, False) for k in ks]
@@ -1007,6 +1224,14 @@ def run_cluster(ctx, cw, cases, tag):
                 if isinstance(impl[k], list) and partition(impl[k]) != partition(one):
                     bad = (k, partition(impl[k]), partition(one), [])
                     break
+        if bad is None and isinstance(one, list):
+            # `templates=None` is the documented spelling of "no templates": same answers as `[]`
+            for k in (None, 2):
+                got = cluster_impl(cw, items, attr_mode, cfg, k, none_templates=True)
+                ctx.count("c:fit_calls_with_templates_None")
+                if not isinstance(got, list) or partition(got) != partition(one):
+                    bad = (k, partition(got) if isinstance(got, list) else got, partition(one), [])
+                    break
         if bad is None:
             continue
         k, gp, wp, classes = bad
@@ -1019,6 +1244,120 @@ def run_cluster(ctx, cw, cases, tag):
                        "batch_size_1_partition": partition(impl[1]) if isinstance(impl[1], list) else impl[1], "stream": tag},
                       classes=classes)
         if len([v for v in ctx.violations if not v["classes"]]) >= 4:
+            return
+
+
+# ---------------------------------------------------------------------- stream c': fit with an initial template library
+def canon_labels(seq, keep):
+    """Class labels up to what the property fixes: a label of the initial library stays itself (the item was put into
+    that existing class), every other label is a NEW class and only its pattern of repeats counts."""
+    first, out = {}, []
+    for pos, l in enumerate(seq):
+        if l is None:
+            out.append(["none", pos])
+        elif l in keep:
+            out.append(["t", l])
+        else:
+            out.append(["n", first.setdefault(l, len(first))])
+    return out
+
+
+def gen_cluster_t_case(rnd, cw, nR):
+    n = 0 if rnd.random() < 0.08 else rnd.randint(1, 7)
+    base = [rnd.randrange(nR) for _ in range(n)]
+    items = [rnd.choice(base) for _ in range(n)] if (n and rnd.random() < 0.5) else base
+    attr_mode = rnd.choice(["none", "sig", "size"])
+    cfg = "default" if rnd.random() < 0.7 else "element"
+    cls = cw.cls_default if cfg == "default" else cw.cls_elem
+    akey = lambda i: None if attr_mode == "none" else cluster_attr(cw, i, attr_mode)
+    shape = rnd.choices(["library", "redundant", "foreign"], weights=[70, 15, 15])[0]
+    m = rnd.randint(1, 4)
+    pool = sorted(set(items))
+    cands = []
+    for _ in range(4 * m + 4):
+        cands.append(rnd.choice(pool) if (pool and shape != "foreign" and rnd.random() < 0.65) else rnd.randrange(nR))
+    seen, tidx = set(), []
+    for i in cands:
+        kk = (akey(i), cls[i])
+        if kk in seen or (shape == "foreign" and i in pool):
+            continue
+        seen.add(kk)
+        tidx.append(i)
+        if len(tidx) == m:
+            break
+    if not tidx:
+        tidx = [rnd.randrange(nR)]
+    if shape == "redundant":
+        tidx.insert(rnd.randint(0, len(tidx)), rnd.choice(tidx))      # a second representative of one class, other label
+    labels = list(range(len(tidx))) if rnd.random() < 0.4 else rnd.sample(range(0, 13), len(tidx))
+    rnd.shuffle(labels)
+    return {"stream": "cluster_t", "items": items, "attr": attr_mode, "config": cfg, "shape": shape,
+            "templates": [[i, l] for i, l in zip(tidx, labels)]}
+
+
+def run_cluster_templates(ctx, cw, cases, tag):
+    """`BatchCluster.fit(data, templates, batch_size=k)` with a NON-empty initial library: one shot (batch_size=None:
+    the single-batch `cluster` branch of `fit`) vs every batch size, vs the Lean model (`batched_cluster_eq_oneshot_templates`)."""
+    for case in cases:
+        items, attr_mode, cfg = case["items"], case["attr"], case["config"]
+        templates = [tuple(t) for t in case["templates"]]
+        keep = {l for _, l in templates}
+        n = len(items)
+        ks = [None] + list(range(1, n + 2)) + [0]
+        impl = {k: cluster_impl(cw, items, attr_mode, cfg, k, templates=templates, full=True) for k in ks}
+        ans = ctx.lean().ok([cluster_model_req(cw, items, attr_mode, cfg, k, True, templates) for k in ks])
+        model = dict(zip(ks, ans))
+
+        def view(x):
+            if isinstance(x, str):
+                return x
+            labels, tout = x
+            return {"labels": canon_labels(list(labels) + [l for _, l in tout], keep)[:len(labels)],
+                    "library_labels": canon_labels(list(labels) + [l for _, l in tout], keep)[len(labels):],
+                    "initial_library_kept": [list(t) for t in tout[:len(templates)]] == [list(t) for t in templates]}
+
+        def mview(m):
+            if "ok" not in m:
+                return m["err"]
+            tl = [t[3] for t in (m.get("templates") or [])]
+            c = canon_labels(list(m["ok"]) + tl, keep)
+            return {"labels": c[:len(m["ok"])], "library_labels": c[len(m["ok"]):], "initial_library_kept": True}
+        vi = {k: view(impl[k]) for k in ks}
+        vm = {k: mview(model[k]) for k in ks}
+        one = vm[None]
+        hit = sum(1 for x in one["labels"] if x[0] == "t") if isinstance(one, dict) else 0
+        new = len({x[1] for x in one["labels"] if x[0] == "n"}) if isinstance(one, dict) else 0
+        ctx.count(f"c':config={cfg}")
+        ctx.count(f"c':attr={attr_mode}")
+        ctx.count(f"c':library_shape={case.get('shape', '?')}")
+        ctx.count(f"c':library_size={len(templates)}")
+        ctx.count(f"c':data_size={n if n < 2 else ('2-4' if n <= 4 else '5-7')}")
+        ctx.count("c':fit_calls", len(ks))
+        ctx.count("c':items_put_into_a_class_of_the_initial_library", hit)
+        ctx.count("c':new_classes", new)
+        ctx.case(["cluster_t", items, attr_mode, cfg, case["templates"]], n >= 2 and hit >= 1 and new >= 1,
+                 sample={"stream": "c':" + tag, **{k: case[k] for k in ("items", "attr", "config", "templates")},
+                         "one_shot": impl[None] if not isinstance(impl[None], str) else impl[None]}
+                 if n <= 4 and want_sample(ctx, "c':", 1) else None)
+        bad = None
+        for k in ks:
+            if vi[k] != vi[None] and k is not None and not (k < 1):
+                bad = (k, "batched call differs from the one-shot call on the same data and the same initial templates", vi[k], vi[None])
+                break
+        if bad is None:
+            for k in ks:
+                if vi[k] != vm[k]:
+                    bad = (k, "BatchCluster.fit with initial templates differs from the model (classes by the proven isomorphism engine)",
+                           vi[k], vm[k])
+                    break
+        if bad is None:
+            continue
+        k, what, got, want = bad
+        ctx.violation(what, {**case, "reactions": [cw.rsmi[i] for i in items],
+                             "template_reactions": [cw.rsmi[i] for i, _ in templates]},
+                      {"batch_size": k, "impl": got, "expected": want, "raw_impl": impl[k] if isinstance(impl[k], str) else list(impl[k]),
+                       "raw_one_shot": impl[None] if isinstance(impl[None], str) else list(impl[None]), "stream": tag})
+        if nviol(ctx) >= 4:
             return
 
 
@@ -1069,6 +1408,169 @@ def run_validation(ctx, reactions, rnd, n):
                       {"stream": "balance", "data": rx}, {"n_jobs_1": res[1], "n_jobs_4": res[4]})
 
 
+# ---------------------------------------------------------------------- stream d': input forms and options of the joblib front ends
+def outcome(fn):
+    """value, or the name of the exception (the error paths are part of 'parallel == serial' too)"""
+    try:
+        return {"ok": fn()}
+    except Exception as e:  # noqa
+        return {"error": type(e).__name__}
+
+
+def remap_rsmi(rnd, r):
+    """the same mapped reaction with the atom-map numbers renamed consistently (an equivalent mapping)"""
+    import re
+    nums = sorted({int(x) for x in re.findall(r":(\d+)\]", r)})
+    perm = list(nums)
+    rnd.shuffle(perm)
+    ren = dict(zip(nums, perm))
+    return re.sub(r":(\d+)\]", lambda m: ":%d]" % ren[int(m.group(1))], r)
+
+
+BAD_RSMI = ["C(C>>CC", "", "CC", "xyz>>abc", "[CH3:1][OH:2]>>[CH3:1]("]
+
+
+def gen_validate_case(rnd, reactions, form):
+    method = rnd.choice(["RC", "ITS", "rc"])
+    ign_arom = rnd.random() < 0.4
+    ign_taut = rnd.random() < 0.6
+    gt = rnd.choice(["ground_truth", "gt"])
+    idx = [rnd.randrange(len(reactions)) for _ in range(rnd.randint(1, 5 if ign_taut else 3))]
+    rows = []
+    for j, i in enumerate(idx):
+        r = reactions[i]
+        rows.append({gt: r if rnd.random() < 0.9 else rnd.choice(BAD_RSMI), "same": r, "remap": remap_rsmi(rnd, r),
+                     "other": reactions[idx[(j + 1) % len(idx)]], "broken": rnd.choice(BAD_RSMI) if rnd.random() < 0.5 else r,
+                     "n": j})
+    cols = rnd.sample(["same", "remap", "other", "broken"], rnd.randint(1, 3))
+    return {"stream": "validate_opt", "form": form, "rows": [] if form == "empty" else rows, "ground_truth_col": gt, "mapped_cols": cols,
+            "check_method": method, "ignore_aromaticity": ign_arom, "ignore_tautomers": ign_taut}
+
+
+def eval_validate_case(ctx, case, jobs=(1, 4)):
+    import pandas as pd
+    from synkit.Chem.Reaction.aam_validator import AAMValidator
+    form, rows, gt, cols = case["form"], case["rows"], case["ground_truth_col"], case["mapped_cols"]
+    method, ign_arom, ign_taut = case["check_method"], case["ignore_aromaticity"], case["ignore_tautomers"]
+
+    def make():
+        if form == "dataframe":
+            return pd.DataFrame([dict(d) for d in rows])
+        if form == "tuple":
+            return tuple(dict(d) for d in rows)
+        return [dict(d) for d in rows]
+    outs = {}
+    for nj in jobs:
+        with quiet_stderr():
+            outs[nj] = outcome(lambda: AAMValidator.validate_smiles(make(), ground_truth_col=gt, mapped_cols=list(cols), check_method=method,
+                                                                    ignore_aromaticity=ign_arom, n_jobs=nj, ignore_tautomers=ign_taut))
+    ser = {c: [AAMValidator.check_pair(d, c, gt, method, ign_arom, ign_taut) for d in rows] for c in cols}
+    ctx.count(f"d':validate_input={form}")
+    ctx.count(f"d':validate_method={method},ignore_aromaticity={ign_arom},ignore_tautomers={ign_taut}")
+    ctx.count("d':validate_pairs", len(rows) * len(cols))
+    ctx.count("d':validate_true", sum(1 for c in cols for x in ser[c] if x is True))
+    ctx.count("d':validate_false_or_none", sum(1 for c in cols for x in ser[c] if x is not True))
+    ctx.count("d':validate_outcome=" + ("value" if "ok" in outs[jobs[0]] else outs[jobs[0]]["error"]))
+    ctx.case(["validate_opt", case], True)
+    bad = None
+    for nj in jobs[1:]:
+        if outs[nj] != outs[jobs[0]]:
+            bad = f"n_jobs={nj} outcome differs from n_jobs={jobs[0]}"
+    if bad is None:
+        if form == "tuple" or not rows:
+            if "ok" in outs[jobs[0]] and form == "tuple":
+                bad = "an input that is neither a DataFrame nor a list was accepted"
+        elif "ok" in outs[jobs[0]]:
+            got = outs[jobs[0]]["ok"]
+            if [m["mapper"] for m in got] != list(cols):
+                bad = "mappers of the result differ from mapped_cols"
+            elif any(list(m["results"]) != ser[m["mapper"]] for m in got):
+                bad = "results differ from the serial pair-by-pair check of the same rows"
+            elif any(m["accuracy"] != round(100 * (sum(ser[m["mapper"]]) / len(rows)), 2) for m in got):
+                bad = "accuracy is not the share of True results"
+        elif all(x is not None for c in cols for x in ser[c]):
+            bad = f"raised {outs[jobs[0]]['error']} although every pair evaluates serially"
+    if bad:
+        ctx.violation("validate_smiles: " + bad, dict(case), {"outcomes": {str(k): v for k, v in outs.items()}, "serial": ser})
+
+
+def gen_balance_case(rnd, reactions, bform, raising, force=False):
+    col = rnd.choice(["reactions", "rsmi"])
+    rx = []
+    for j in range(rnd.randint(0 if bform == "list" else 1, 6)):
+        r = reactions[rnd.randrange(len(reactions))]
+        x = rnd.random()
+        if x < 0.3:
+            a, b = r.split(">>")
+            if "." in b:
+                r = a + ">>" + ".".join(b.split(".")[:-1])       # unbalanced: a product fragment dropped
+        elif x < 0.45:
+            r = rnd.choice(["C(C>>CC", "CC>>C(C", "xyz>>abc", "CC>>CC"])   # a side that RDKit cannot parse: formula ''
+        elif raising and j == 0:
+            r = "CCO"                                              # no '>>': the per-reaction check raises (in a worker)
+        y = rnd.random()
+        rx.append({col: r, "n": j} if y < 0.45 else ({"other_key": r} if y < 0.55 else r))
+    if force:                       # every quick run holds a side RDKit cannot parse, a dict and a bare string
+        rx.insert(rnd.randint(0, len(rx)), {col: rnd.choice(["C(C>>CC", "CC>>C(C"]), "n": 99})
+        rx.insert(rnd.randint(0, len(rx)), reactions[rnd.randrange(len(reactions))])
+    if bform == "str":
+        inp = rx[0][col] if isinstance(rx[0], dict) and col in rx[0] else (rx[0] if isinstance(rx[0], str) else "CC>>CC")
+    else:
+        inp = rx
+    return {"stream": "balance_opt", "form": bform, "input": inp, "rsmi_column": col}
+
+
+def eval_balance_case(ctx, case, jobs=(1, 4)):
+    from synkit.Chem.Reaction.balance_check import BalanceReactionCheck
+    bform, inp, col = case["form"], case["input"], case["rsmi_column"]
+    if bform == "str":
+        norm = [{col: inp}]
+    else:
+        norm = [x if isinstance(x, dict) else {col: x} for x in inp if isinstance(x, str) or col in x]
+    res = {}
+    for nj in jobs:
+        with quiet_stderr():
+            res[nj] = outcome(lambda: BalanceReactionCheck(n_jobs=nj).dicts_balance_check(
+                tuple(inp) if bform == "tuple" else (inp if isinstance(inp, str) else [dict(x) if isinstance(x, dict) else x for x in inp]),
+                rsmi_column=col))
+    serial = outcome(lambda: [BalanceReactionCheck.rsmi_balance_check(d[col]) for d in norm])
+    ctx.count(f"d':balance_input={bform}")
+    ctx.count(f"d':balance_rsmi_column={col}")
+    ctx.count("d':balance_reactions", len(norm))
+    ctx.count("d':balance_outcome=" + ("value" if "ok" in res[jobs[0]] else res[jobs[0]]["error"]))
+    ctx.case(["balance_opt", case], True)
+    bad = None
+    for nj in jobs[1:]:
+        if res[nj] != res[jobs[0]]:
+            bad = f"n_jobs={nj} outcome differs from n_jobs={jobs[0]}"
+    if bad is None:
+        if bform == "tuple":
+            if "ok" in res[jobs[0]]:
+                bad = "an input that is neither a string nor a list was accepted"
+        elif "ok" in serial:
+            want_b = [{"balanced": True, **d} for d, ok in zip(norm, serial["ok"]) if ok]
+            want_u = [{"balanced": False, **d} for d, ok in zip(norm, serial["ok"]) if not ok]
+            if "ok" not in res[jobs[0]] or [list(x) for x in res[jobs[0]]["ok"]] != [want_b, want_u]:
+                bad = "result differs from the serial reaction-by-reaction check"
+        elif "ok" in res[jobs[0]]:
+            bad = f"returned a result although the serial check of some reaction raises {serial['error']}"
+    if bad:
+        ctx.violation("dicts_balance_check: " + bad, dict(case), {"outcomes": {str(k): v for k, v in res.items()}, "serial": serial})
+
+
+def run_validation_options(ctx, reactions, rnd, n_cases, jobs=(1, 4)):
+    """`validate_smiles` / `dicts_balance_check` through every documented input form (list of dicts, pandas DataFrame;
+    single string, list of strings / dicts, other column names), the per-pair options (check_method, ignore_aromaticity,
+    ignore_tautomers), rows that cannot be parsed, empty and ill-typed inputs: every worker count gives the outcome of
+    the serial pair-by-pair / reaction-by-reaction evaluation (value or raised error kind)."""
+    for ci in range(n_cases):
+        form = ["dataframe", "list", "dataframe", "empty", "tuple"][ci] if ci < 5 else rnd.choice(["dataframe", "dataframe", "list"])
+        eval_validate_case(ctx, gen_validate_case(rnd, reactions, form), jobs)
+        bform = ["str", "tuple", "list", "str"][ci] if ci < 4 else rnd.choice(["str", "list", "list", "list"])
+        raising = ci == n_cases - 1 or rnd.random() < 0.04          # rare: a task that raises costs the worker pool
+        eval_balance_case(ctx, gen_balance_case(rnd, reactions, bform, raising, force=(ci == 2)), jobs)
+
+
 # ====================================================================== stream e: SynCRN
 CRN_RULES = [
     "[CH3:1][C:2](=[O:3])[OH:4].[CH3:5][OH:6]>>[CH3:1][C:2](=[O:3])[O:6][CH3:5].[OH2:4]",
@@ -1113,6 +1615,99 @@ def run_crn(ctx, rnd, n):
                           {"serial": keys[False], "parallel": keys[True]})
 
 
+# ---------------------------------------------------------------------- stream e': options, worker counts and entry points of SynCRN
+CRN_RULE3 = "[CH3:1][C:2](=[O:3])[OH:4].[CH3:5][OH:6].[OH2:7]>>[CH3:1][C:2](=[O:3])[O:6][CH3:5].[OH2:4].[OH2:7]"
+
+
+CRN_PRESETS = [
+    {"opts": {"use_frontier": False, "strategy": "all"}, "rule3": True, "entry": "class", "seeds": ["CC(=O)O", "CO", "O", "CCO"]},
+    {"opts": {"dedup_delta": False, "keep_aam": False}, "rule3": False, "entry": "function", "seeds": ["C=C", "O", "CCO", "C(C"]},
+    {"opts": {"dedup_across_rules": True, "use_frontier": False, "max_components": 2}, "rule3": True, "entry": "function",
+     "seeds": ["CC(=O)O", "CO", "CCO"]},
+    {"opts": {"max_tasks_per_step": 3, "max_mixtures_per_rule_step": 2}, "rule3": True, "entry": "class",
+     "seeds": ["CC(=O)O", "CO", "O", "CCO", "C=C"]},                       # the caps cut the task lists short
+]
+
+
+def gen_crn_opt_case(rnd, preset=None):
+    c = gen_crn_opt_case_random(rnd)
+    if preset is not None:             # quick runs always hold these option vectors; the rest of the case stays random
+        c["opts"].update(preset["opts"])
+        c["opts"]["repeats"] = max(2, c["opts"]["repeats"])
+        c["entry"] = preset["entry"]
+        c["rules"] = list(CRN_RULES) + ([CRN_RULE3] if preset["rule3"] else [])
+        c["seeds"] = list(preset["seeds"])
+        if "max_tasks_per_step" not in preset["opts"]:
+            c["opts"].pop("max_tasks_per_step", None)
+    return c
+
+
+def gen_crn_opt_case_random(rnd):
+    rules = rnd.sample(CRN_RULES, rnd.randint(1, 3))
+    if rnd.random() < 0.35:
+        rules.insert(rnd.randint(0, len(rules)), CRN_RULE3)             # three components: the k-ary mixture iterator
+    seeds = list(rnd.choice([["CC(=O)O", "CO"], ["CCO"], ["C=C", "O"], ["CC(=O)O", "CO", "O"], []]))   # reactants of some rule
+    seeds += [x for x in rnd.sample(CRN_SEEDS, rnd.randint(0, 4)) if x not in seeds]
+    if not seeds:
+        seeds = [rnd.choice(CRN_SEEDS)]
+    rnd.shuffle(seeds)
+    if rnd.random() < 0.3:
+        seeds.insert(rnd.randint(0, len(seeds)), rnd.choice(["C(C", "xyz", ""]))   # unusable seed: skipped by _init_pool
+    if rnd.random() < 0.3:
+        seeds.append(rnd.choice(seeds))                                  # repeated seed
+    opts = {"repeats": rnd.randint(1, 3), "implicit_temp": True, "explicit_h": False}
+    if rnd.random() < 0.5:
+        opts["strategy"] = rnd.choice(["all", "bt", "comp"])
+    if rnd.random() < 0.35:
+        opts["use_frontier"] = False
+    if rnd.random() < 0.3:
+        opts["dedup_delta"] = False
+    if rnd.random() < 0.3:
+        opts["dedup_across_rules"] = True
+    if rnd.random() < 0.3:
+        opts["keep_aam"] = False
+    if rnd.random() < 0.2:
+        opts.update(allow_empty_side=True, skip_no_change=rnd.random() < 0.5)
+    if rnd.random() < 0.25:
+        opts["max_components"] = rnd.choice([1, 2])
+    if rnd.random() < 0.15:
+        opts["max_tasks_per_step"] = rnd.choice([1, 2, 3])               # 1: a single task never starts a pool
+    return {"stream": "crn_opt", "rules": rules, "seeds": seeds, "opts": opts,
+            "max_workers": rnd.choice([1, 2, 2, 3, 4, None]), "entry": rnd.choice(["class", "function"])}
+
+
+def crn_build(case, parallel):
+    from synkit.CRN.DAG.syncrn import SynCRN, build_syncrn_from_smarts
+    if case["entry"] == "function":
+        return build_syncrn_from_smarts(list(case["rules"]), list(case["seeds"]), parallel=parallel,
+                                        max_workers=case["max_workers"], **case["opts"])
+    return SynCRN(rules=list(case["rules"]), **case["opts"]).build(list(case["seeds"]), parallel=parallel,
+                                                                  max_workers=case["max_workers"])
+
+
+def run_crn_options(ctx, cases, tag):
+    for case in cases:
+        keys = {}
+        for par in (False, True):
+            with quiet_stderr():
+                keys[par] = outcome(lambda: crn_key(crn_build(case, par)))
+        nrx = len(keys[False]["ok"]["reactions"]) if "ok" in keys[False] else 0
+        ctx.count("e':crn_builds", 2)
+        ctx.count("e':crn_reaction_nodes", nrx)
+        ctx.count(f"e':entry={case['entry']}")
+        ctx.count(f"e':max_workers={case['max_workers']}")
+        for k, v in sorted(case["opts"].items()):
+            if k not in ("implicit_temp", "explicit_h"):
+                ctx.count(f"e':{k}={v}")
+        if CRN_RULE3 in case["rules"]:
+            ctx.count("e':with_a_three_component_rule")
+        ctx.case(["crn_opt", case], nrx >= 1,
+                 sample={**case, "stream": "e':" + tag, "n_reactions": nrx} if want_sample(ctx, "e':", 1) else None)
+        if keys[False] != keys[True]:
+            ctx.violation("SynCRN.build(parallel=True) builds a different network than parallel=False", dict(case),
+                          {"serial": keys[False], "parallel": keys[True], "stream": tag})
+
+
 # ====================================================================== run / replay
 def want_sample(ctx, prefix, limit):
     return sum(1 for x in ctx.samples if str(x.get("stream", "")).startswith(prefix)) < limit
@@ -1148,6 +1743,18 @@ def run_one(ctx, case, tag):
     elif st == "cluster":
         _, _, R = load_corpus()
         run_cluster(ctx, cluster_world(ctx, R), [(case["items"], case["attr"], case["config"])], tag)
+    elif st == "validate_opt":
+        eval_validate_case(ctx, case)
+    elif st == "balance_opt":
+        eval_balance_case(ctx, case)
+    elif st == "fit_err":
+        rules, subs, _ = load_corpus()
+        run_fit_errors(ctx, FitWorld(rules, subs), [{k: v for k, v in case.items() if k != "data"}], tag)
+    elif st == "crn_opt":
+        run_crn_options(ctx, [{k: v for k, v in case.items()}], tag)
+    elif st == "cluster_t":
+        _, _, R = load_corpus()
+        run_cluster_templates(ctx, cluster_world(ctx, R), [{k: v for k, v in case.items() if k not in ("reactions", "template_reactions")}], tag)
     elif st == "dedupe":
         from synkit.Synthesis.Reactor.batch_reactor import _dedupe
         got = list(_dedupe(list(case["xs"])))
@@ -1182,6 +1789,12 @@ def run(ctx):
         "BatchReactor with react_engine 'syn' (the 'mod' engine needs the external package `mod`, not installed); with a "
         "pre_filter_engine the reference is the implementation itself on the one-entry batch (the Lean fit model has no pre-filter)",
         "clustering attributes are strings or attribute_key=None (list-valued attributes are sorted by the one-shot path only)",
+        "b-err: which of several ill-formed members of one batch determines the raised error is not fixed by the property (any of "
+        "them is accepted); the documented error types (KeyError / TypeError / ValueError) are counted, not gated",
+        "d', e' and the n_jobs>1 part of b-err have no Lean model: the reference is the property's own right-hand side (the serial "
+        "pair-by-pair / reaction-by-reaction / parallel=False evaluation, the member alone) computed in-process",
+        "c': a template library with two isomorphic representatives under different labels is resolved 'first in list order' by the "
+        "code and by the model alike; the property itself only demands batched == one shot",
     ]
     ctx.gen_rule = (
         "regression corpus first. (a) ALL programs over an 8-op alphabet (2 substrate slots, contents, forced identity reuse, free, "
@@ -1197,10 +1810,20 @@ def run(ctx):
         "fits / mixed x semantic options (explicit_h, implicit_temp, strategy bt/all/comp) x pre-filter {none, turbo, sing, nx}; "
         "1-3 fits per reactor (permuted, rotated, shortened, repeated, other direction, fresh list). "
         "(c) random item lists (3..9 reaction centres of corpus/c14_reactions.json, with repeats) x attribute {none, element signature, "
-        "size} x matcher config {default, element-only}, every batch size 1..N+1 and one shot. (d) n_jobs 1 vs 4. (e) parallel vs serial.")
+        "size} x matcher config {default, element-only}, every batch size 1..N+1, 0, -1 and one shot; templates [] and None. "
+        "(b-err) batches of 1..6 entries (valid corpus substrates as strings / dicts) with 1-2 ill-formed members {unparsable SMILES, "
+        "non-string, dict without key, dict with non-string value, dict without host_key} at first / middle / last position, or a rule list "
+        "with a non-rule (int, None, float, list, unparsable / arrow-less / empty string) at a random position, optionally followed by a good "
+        "fit; entry_n_jobs 1 (mostly) and 2. (c') 0..7 items x library of 1..5 templates (70% one representative per class, 15% with a "
+        "redundant representative, 15% foreign to the data; labels contiguous or sparse) x attribute x matcher config, every batch size. "
+        "(d) n_jobs 1 vs 4. (d') input forms {DataFrame, list, empty, tuple} x check_method {RC, ITS, rc} x ignore_aromaticity x "
+        "ignore_tautomers x column names, rows with unparsable ground truth / mapped SMILES, remapped-but-equivalent mappings; balance "
+        "input {single string, list of strings/dicts incl. dicts without the column, tuple} x rsmi_column, unparsable sides, a reaction "
+        "without '>>'. (e) parallel vs serial. (e') option vectors as listed in the docstring, seeds containing the reactants of a rule.")
     ctx.nontrivial_rule = ("(a) >=2 calls and a release or an identity reuse; (b) >=2 entries and >=1 entry with products; (b') removing any single position of the first rule list changes the "
                            "reference result of some entry; (c) >=3 items, "
-                           "2 <= #classes < #items; (d),(e) every case; distinct as JSON values")
+                           "2 <= #classes < #items; (b-err) >=2 entries or an ill-formed rule list; (c') >=2 items, >=1 item put into a class of "
+                           "the initial library and >=1 new class; (d),(d'),(e) every case; (e') >=1 reaction node; distinct as JSON values")
     build_and_audit(ctx, ["SynKitProofs.Props.C14"], "SynKitProofs/Audit/C14.lean", THEOREMS)
 
     import time
@@ -1252,6 +1875,7 @@ def run(ctx):
     lap("a")
     # ---- b
     nb = nviol(ctx)
+    b_ok = False
     world = FitWorld(rules, subs)
     pairs = look_alike_pairs(subs)
     ctx.count("b:look_alike_pairs_available", len(pairs))
@@ -1264,12 +1888,21 @@ def run(ctx):
         pcases = [gen_fit_case_productive(rnd, world, pairs, 2, n_jobs=nj, max_batch=5, min_batch=3) for nj in par]
         if nviol(ctx) == nb:
             run_fit(ctx, world, pcases, "parallel")
+        b_ok = nviol(ctx) == nb
+        lap("b")
+        nbe = nviol(ctx)
+        ecases = [gen_fit_err_case(rnd, world, n_jobs=2) for _ in range(5 if ctx.quick else 40)] + \
+                 [gen_fit_err_case(rnd, world) for _ in range(26 if ctx.quick else 400)]
+        run_fit_errors(ctx, world, ecases, "ill-formed")
+        ctx.obligation("correspondence b-err: a batch holding an entry that is no substrate (unparsable SMILES, wrong type, dict without "
+                       "the key / without host_key), or a rule list holding a non-rule, raises as that member alone does - for 1 and 2 "
+                       "entry workers; a good fit after a failed one == the rules applied alone", nviol(ctx) == nbe)
     finally:
         shutdown_workers()
     ctx.obligation("correspondence b: BatchReactor.fit per entry == rules applied to the substrate alone (via the Lean fit model)",
-                   nviol(ctx) == nb)
+                   b_ok)
 
-    lap("b")
+    lap("b-err")
     # ---- b': the whole option space of the constructor, rule lists of length 1..7 in which every rule matters
     nb2 = nviol(ctx)
     try:
@@ -1295,21 +1928,36 @@ def run(ctx):
     run_cluster(ctx, cw, ccases, "random")
     ctx.obligation("correspondence c: BatchCluster.fit partitions, every batch size == one shot == Lean model",
                    nviol(ctx) == nc)
-
     lap("c")
+    nc2 = nviol(ctx)
+    tcases = [gen_cluster_t_case(rnd, cw, len(reactions)) for _ in range(20 if ctx.quick else 400)]
+    run_cluster_templates(ctx, cw, tcases, "random")
+    ctx.obligation("correspondence c': BatchCluster.fit with a non-empty initial template library (and templates=None, batch_size<1): "
+                   "every batch size == one shot == Lean model", nviol(ctx) == nc2)
+
+    lap("c'")
     # ---- d, e (exploration of the runtime part)
     nd = nviol(ctx)
     try:
         for _ in range(1 if ctx.quick else 6):
             run_validation(ctx, reactions, rnd, 12 if ctx.quick else 24)
+        lap("d")
+        run_validation_options(ctx, reactions, rnd, 5 if ctx.quick else 60)
+        if not ctx.quick:
+            run_validation_options(ctx, reactions, rnd, 20, jobs=(1, 2))      # one change of the pool size only
     finally:
         shutdown_workers()
-    ctx.obligation("exploration d: validate_smiles / dicts_balance_check, n_jobs=4 == n_jobs=1 == serial", nviol(ctx) == nd)
-    lap("d")
+    ctx.obligation("exploration d: validate_smiles / dicts_balance_check, n_jobs=4 == n_jobs=1 == serial (every input form, "
+                   "per-pair option, unparsable rows, empty / ill-typed input)", nviol(ctx) == nd)
+    lap("d'")
     ne = nviol(ctx)
     run_crn(ctx, rnd, 2 if ctx.quick else 12)
     lap("e")
-    ctx.obligation("exploration e: SynCRN.build(parallel=True) == build(parallel=False)", nviol(ctx) == ne)
+    run_crn_options(ctx, [gen_crn_opt_case(rnd, CRN_PRESETS[i] if i < len(CRN_PRESETS) else None) for i in range(10 if ctx.quick else 120)], "options")
+    lap("e'")
+    ctx.obligation("exploration e: SynCRN.build(parallel=True) == build(parallel=False) (strategy / frontier / de-duplication / "
+                   "keep_aam / component and task caps, max_workers 1..4 and default, class and build_syncrn_from_smarts)",
+                   nviol(ctx) == ne)
     ctx.extra["partial"] = ("process start-up, pickling and scheduling of worker processes are outside the model; "
                             "covered by exploration only (streams b with n_jobs>1, d, e)")
 
